@@ -683,7 +683,9 @@ class Model:
     if self.crashed:
       return 'CRASH'   # any outcome but PASS is acceptable (see compare)
     if not self.phases:
-      return 'FAIL' if self.failure_diag else 'PASS'
+      if self.failure_diag or any(s[1] == 'FAIL' for s in self.subtests):
+        return 'FAIL'
+      return 'PASS'
     if any(p[1] == 'FAIL' for p in self.phases):
       return 'FAIL'
     if all(p[1] == 'SKIP' for p in self.phases):
